@@ -416,6 +416,11 @@ def register(M):
 
     @reg('Vec::extend', 'Extend::extend', 'Vec::extend_from_slice')
     def _(ex, info, a, dty):
+        c0, p0 = ex.deref(a[0])
+        tgt = ex.read_path(c0, p0)
+        if isinstance(tgt, Obj) and tgt.kind == 'assoc' and tgt.vty == '()':
+            M.set_extend(ex, c0, p0, seq_of(ex, a[1]))
+            return UNIT
         cell, path, v = vec_at(ex, a[0])
         ex.write_path(cell, path, v.set(items=v.items + tuple(seq_of(ex, a[1]))))
         return UNIT
